@@ -381,6 +381,17 @@ class Party(sut.BaseAlgorithm):
             sched = dict(reversed(list(sched.items())))
         rec["schedule"] = {k: [float(x) for x in v] for k, v in sched.items()}
         rec["key_order"] = list(sched.keys())
+        mt = self.sc["party"].get("mapping_type", "dict")
+        if mt != "dict" and self.inner is None and fk != "malformed" and type(sched) is dict:
+            # the mapping handed to the simulator is a dict subclass; stations it omits are omitted (no default is to be conjured up)
+            import collections
+            if mt == "ordered":
+                sched = collections.OrderedDict(sched)
+            elif mt == "defaultdict_list":
+                sched = collections.defaultdict(list, sched)
+            else:
+                L_ = len(next(iter(sched.values()))) if sched else 1
+                sched = collections.defaultdict(lambda: [6.0] * L_, sched)
         rec["completed"] = True
         return sched
 
